@@ -255,8 +255,22 @@ for _n, _gen, _dom, _geo in _cogs:
 
 # ---- Sedov, Guderley -------------------------------------------------------------------------------
 def gen_sedov(rng, geom):
-    om = choice(rng, [0.0, uni(rng, 0.0, 0.9 * geom)])
-    return dict(gamma=uni(rng, 1.1, 3.0), rho0=_pos(rng), omega=om, eblast=logu(rng, 0.05, 20))
+    # the three solution types of the solver: standard (omega < omega1), singular (omega = omega1, closed form) and
+    # vacuum (omega1 < omega < geometry: a hole opens at the centre); omega1 = (3j - 2 + gamma (2 - j))/(gamma + 1).
+    # The singular value is approached to 2e-6 (relative): at the exact floating-point value the constructor divides by
+    # zero in a coefficient the singular branch does not use (ZeroDivisionError, counted as a solver exception; the
+    # solver treats |v2 - v*| <= 1e-4 as singular).
+    gamma = uni(rng, 1.1, 3.0)
+    om1 = (3.0 * geom - 2.0 + gamma * (2.0 - geom)) / (gamma + 1.0)
+    opts = [0.0, 0.0, uni(rng, 0.0, 0.9 * geom), uni(rng, 0.0, 0.9 * geom), om1 * (1.0 + 2e-6 * sgn(rng)), uni(rng, om1 + 0.02 * (geom - om1), om1 + 0.9 * (geom - om1))]
+    opts = opts[:4] if om1 >= geom - 1e-9 else opts                    # planar: omega1 = 1 = geometry, standard type only
+    # the two "special singularities" of the closed form (denominators of its exponents vanish; the solver switches to
+    # limiting expressions within 1e-4 of them): omega2 = (2 (gamma-1) + j)/gamma, omega3 = j (2 - gamma)
+    for sp in ((2.0 * (gamma - 1.0) + geom) / gamma, geom * (2.0 - gamma)):
+        if 0.0 <= sp < geom - 1e-9:
+            opts = opts + [sp]
+    om = choice(rng, opts)
+    return dict(gamma=gamma, rho0=_pos(rng), omega=om, eblast=logu(rng, 0.05, 20))
 
 
 def dom_sedov(rng, s, kw, geom, n):
@@ -341,12 +355,15 @@ CAT["EPpiston"]["admit"] = lambda s: (s.up > s.vel_y) and (s.wv_pl < s.wv_el)
 
 
 def gen_mader(rng, geom):
-    d = logu(rng, 3e5, 1.2e6)
-    return dict(p_cj=logu(rng, 1e11, 5e11), d_cj=d, gamma=uni(rng, 2.0, 3.5), u_piston=choice(rng, [0.0, d * uni(rng, 0.0, 0.1)]))
+    # two unit systems: CGS (the class defaults: dyn/cm^2, cm/s, times of microseconds = 1e-6) and the cm / microsecond /
+    # Mbar system of the module's documentation (0.3 Mbar, 0.8 cm/us, times of order 1-10)
+    u = 1.0 if rng.random() < 0.5 else 1e-6
+    d = logu(rng, 3e5, 1.2e6) * u
+    return dict(p_cj=logu(rng, 1e11, 5e11) * u * u, d_cj=d, gamma=uni(rng, 2.0, 3.5), u_piston=choice(rng, [0.0, d * uni(rng, 0.0, 0.1)]))
 
 
 def dom_mader(rng, s, kw, geom, n):
-    t = logu(rng, 1e-6, 1e-5)
+    t = logu(rng, 1e-6, 1e-5) * (1.0 if kw["d_cj"] > 100.0 else 1e6)
     n = max(n, 8)
     L = kw["d_cj"] * t
     dx = L / n
@@ -479,6 +496,14 @@ def gen_rod(rng, geom):
         kw.update(alpha1=1.0, beta1=0.0, gamma1=g1, alpha2=0.0, beta2=1.0, gamma2=g2)
     else:
         kw.update(alpha1=0.0, beta1=1.0, gamma1=g1, alpha2=1.0, beta2=0.0, gamma2=g2)
+    # alpha T + beta T' = gamma and k (alpha T + beta T') = k gamma are the same condition: half of the draws carry a
+    # non-unit (possibly negative) factor on each boundary, e.g. k dT/dx = q or an outward normal
+    if rng.random() < 0.5:
+        k1, k2 = sgn(rng) * logu(rng, 0.3, 3), sgn(rng) * logu(rng, 0.3, 3)
+        if bc == 2:
+            k2 = k1                                     # the solver compares gamma1 with gamma2 for this case
+        for k, a in (("alpha1", k1), ("beta1", k1), ("gamma1", k1), ("alpha2", k2), ("beta2", k2), ("gamma2", k2)):
+            kw[k] = kw[k] * a
     return kw
 
 
